@@ -6,4 +6,5 @@ CONSTANTS VrfLen = 2
           MAXC = 6
           Tables <- TablesT
 INVARIANT PropC40
+INVARIANT PropC40Ranges
 CHECK_DEADLOCK FALSE
